@@ -576,12 +576,20 @@ fn inv(x: u64) -> u64 {
     };
     let mut v: u128 = M as u128;
     let mut d = (M as u128) - 1;
+    #[cfg(feature = "verif-hooks")]
+    let mut verif_steps = 0u32;
 
     while v != 1 {
+        #[cfg(feature = "verif-hooks")]
+        crate::field::verif_step(&mut verif_steps);
         while v < u {
+            #[cfg(feature = "verif-hooks")]
+            crate::field::verif_step(&mut verif_steps);
             u -= v;
             d += a;
             while u & 1 == 0 {
+                #[cfg(feature = "verif-hooks")]
+                crate::field::verif_step(&mut verif_steps);
                 if d & 1 == 1 {
                     d += M as u128;
                 }
@@ -594,6 +602,8 @@ fn inv(x: u64) -> u64 {
         a += d;
 
         while v & 1 == 0 {
+            #[cfg(feature = "verif-hooks")]
+            crate::field::verif_step(&mut verif_steps);
             if a & 1 == 1 {
                 a += M as u128;
             }
